@@ -167,6 +167,61 @@ CtxFillPats ==
        W == { e \in S : CtxOK(e) }
    IN { LET r == Renumber(e) IN [ast |-> r, ng |-> Len(GroupOrder(e))] : e \in W }
 
+(***************************************************************************)
+(* C03: injection of the always-true empty look-ahead (?=) before or after *)
+(* any sub-expression.  Injections(e) = every AST obtained from e by ONE   *)
+(* injection.  It never changes the meaning (lemma checked by TLC in       *)
+(* TraceRows with VH_LEMMA) but changes what the compiler delegates.       *)
+(***************************************************************************)
+RECURSIVE Injections(_), InjectKid(_, _)
+ReplaceKid(e, j, x) ==
+   CASE e.k \in {"cat", "alt"} -> [e EXCEPT !.xs[j] = x]
+     [] e.k \in {"rep", "grp", "atom", "look", "lookb"} -> [e EXCEPT !.x = x]
+     [] e.k = "cond" -> IF j = 1 THEN [e EXCEPT !.c = x] ELSE IF j = 2 THEN [e EXCEPT !.y = x] ELSE [e EXCEPT !.n = x]
+InjectKid(e, j) == { ReplaceKid(e, j, x) : x \in Injections(Kids(e)[j]) }
+Injections(e) ==
+   {Cat(<<E0, e>>), Cat(<<e, E0>>)} \cup UNION { InjectKid(e, j) : j \in 1..Len(Kids(e)) }
+\* an injection directly under a repeat must keep the operand repeatable; (?=) inside a condition that
+\* is a bare group test turns it into a general condition, which is fine
+InjectOK(e) == CtxOK(e)
+
+(***************************************************************************)
+(* C15: conditionals at every nesting position.                            *)
+(***************************************************************************)
+CondFillers == <<
+   Cond(Lb, Lc, Empty), Cond(Lb, Lc, La), Cond(Look(La), La, Lb), Cond(NLook(La), Lb, La),
+   Cond(Alt(<<La, Cat(<<La, Lb>>)>>), Lc, Lb), Cond(Star(La), Lb, Lc), Cond(Cond(Lb, La, Empty), Lb, La),
+   Cond(Lb, Empty, Lc), Cond(Cat(<<La, Lb>>), Lc, Cat(<<La, Lc>>)), Cond(La, Cond(Lb, Lc, La), Lb),
+   Cond(La, Lb, Cond(Lb, Lc, Empty)), Cond(LookB(La), Lb, Lc), Cond(Grp(201, La), Bref(201), Lb)
+>>
+\* fillers that test group 101, which the context opens (optionally) to the left
+CondFillersG == <<
+   Cond(Bex(101), La, Lb), Bex(101), Cond(Bex(101), Empty, Lb), Cond(Bex(101), Lb, Empty),
+   Cond(Bex(101), Cond(Lb, Lc, Empty), La), Cond(Cond(Bex(101), La, Empty), Lb, Lc), Cond(Bex(101), Bref(101), Lc)
+>>
+NCondContexts == 14
+CondCtx(i, H) ==
+   CASE i = 1  -> H
+     [] i = 2  -> Cat(<<H, La>>)
+     [] i = 3  -> Cat(<<Atom(Cat(<<LazyStar(La), H>>)), La, Lb>>)
+     [] i = 4  -> Cond(H, Lb, La)
+     [] i = 5  -> Rep(Cat(<<H, AnyC>>), 1, 2, TRUE)
+     [] i = 6  -> Cat(<<Look(H), AnyC>>)
+     [] i = 7  -> Cat(<<NLook(H), AnyC>>)
+     [] i = 8  -> Cat(<<Atom(H), Lb>>)
+     [] i = 9  -> Cat(<<Atom(Cat(<<H, E0>>)), La>>)
+     [] i = 10 -> Alt(<<Cat(<<H, Lb>>), La>>)
+     [] i = 11 -> Cond(Look(H), La, Lb)
+     [] i = 12 -> Cat(<<Atom(Cat(<<LazyStar(Lb), H>>)), Lb>>)
+     [] i = 13 -> Cat(<<Plus(Cat(<<Opt(La), H>>)), Lc>>)
+     [] i = 14 -> Cat(<<Star(AnyC), H, E0>>)
+CondCtxFillPats ==
+   LET S1 == { CondCtx(i, CondFillers[j]) : i \in 1..NCondContexts, j \in 1..Len(CondFillers) }
+       S2 == { Cat(<<Opt(Grp(101, La)), CondCtx(i, CondFillersG[j])>>) : i \in 1..NCondContexts, j \in 1..Len(CondFillersG) }
+       S3 == { Cat(<<Grp(101, Opt(La)), CondCtx(i, CondFillersG[j])>>) : i \in 1..NCondContexts, j \in 1..Len(CondFillersG) }
+       W == { e \in S1 \cup S2 \cup S3 : CtxOK(e) }
+   IN { LET r == Renumber(e) IN [ast |-> r, ng |-> Len(GroupOrder(e))] : e \in W }
+
 Quants8 == {<<0, -1, TRUE>>, <<0, -1, FALSE>>, <<1, -1, TRUE>>, <<0, 1, TRUE>>, <<0, 1, FALSE>>,
             <<1, 2, TRUE>>, <<2, 2, TRUE>>, <<2, -1, FALSE>>}
 Quants4 == {<<0, -1, TRUE>>, <<1, -1, FALSE>>, <<0, 1, TRUE>>, <<1, 2, TRUE>>}
